@@ -513,9 +513,9 @@ func runPrep(e *Env) {
 	allowCancel := !e.NoFaults && tp.Chance(1, 3)
 	coalesce := []time.Duration{0, 0, 200 * time.Microsecond}[tp.Next(3)]
 	// newer dimensions (0 = the run as it was before they existed)
-	nStmts += tp.Next(4)                // up to 6 of the 7 statements
-	noSkipMeta := tp.Next(4) == 3       // results carry their metadata
-	allowMeta, maxAlters := false, 0    // statements whose meaning changes
+	nStmts += tp.Next(4)             // up to 6 of the 7 statements
+	noSkipMeta := tp.Next(4) == 3    // results carry their metadata
+	allowMeta, maxAlters := false, 0 // statements whose meaning changes
 	if !e.NoFaults {
 		allowMeta = tp.Chance(1, 2)
 		if allowMeta {
